@@ -321,6 +321,9 @@ func c10Flags(t *tape.Tape) json.ParseFlags {
 
 func c10GenTask(r *core.Run, t *tape.Tape) []*c10Op {
 	n := t.Range(3, 10)
+	if r.Tier == "thorough" && t.Chance(1, 3) {
+		n = t.Range(10, 24) // longer histories in the thorough tier
+	}
 	var ops []*c10Op
 	for j := 0; j < n; j++ {
 		op := &c10Op{}
